@@ -335,6 +335,13 @@ class Judge:
         # route B: two-step  (--asm -o, then --run)
         out_b = d / 'two_step.fjm'
         dbg_b = d / 'two_step.fjd'
+        if rng.random() < 0.3:
+            # the output paths of the CLI routes already hold (longer) files of some earlier build: what is there afterwards must
+            # still be a function of the sources and options only
+            junk = bytes(rng.getrandbits(8) for _ in range(4096)) * rng.choice([1, 40, 400])
+            for stale in (out_b, dbg_b, d / 'one_step.fjm', d / 'one_step.fjd'):
+                stale.write_bytes(junk)
+            self.count('cases_with_preexisting_output_files')
         rc, so, se = self.cli(['--asm', '-s', '-o', str(out_b)] + common + (['-d', str(dbg_b)] if opts['debug'] else []) + src_args, cwd)
         if rc != 0 or not out_b.exists():
             self.count('two_step_assembly_failed')
@@ -351,6 +358,13 @@ class Judge:
             self.count('refusals_compared')
             if rc_c == 0 or rc_a == 0 or b'FJVERIF-ONESTEP' in se_c:
                 self.bad('routes-disagree-on-acceptance', f'{case["program"]} {opts}: fj --asm refuses it; one-step fj rc={rc_a}, API rc={rc_c}', case)
+            if runnable and opts['version'] is None:
+                # the one-step flow without -o assembles with its own default version (1): acceptance must not depend on that
+                rc_t, so_t, se_t = self.cli(['-s'] + common + src_args, cwd, stdin)
+                self.count('refusals_compared_with_the_temporary_file_flow')
+                if rc_t == 0:
+                    self.bad('routes-disagree-on-acceptance/default-versions', f'{case["program"]} {opts}: fj --asm -o (default version 3) refuses '
+                             f'the program: {se.decode("latin-1")[-160:]!r}, fj without -o (default version 1) assembles and runs it', case)
             shutil.rmtree(d, ignore_errors=True)
             return
         bytes_b = out_b.read_bytes()
@@ -481,6 +495,18 @@ def run_shard(spec: Dict[str, Any], journal: Any) -> Dict[str, Any]:
             judge.one_case(rng, {'name': 'warning-bearing-hello', 'files': [str(warn_dir / 'warning_hello.fj')], 'width': 64, 'stl': False,
                                  'input': None, 'warns': True}, runnable=True)
             judge.count('warning_bearing_cases')
+    layout_dir = workdir / 'layouts'
+    layout_dir.mkdir(exist_ok=True)
+    for k in range(2):
+        gap = rng.choice([1 << 12, 1 << 16, 1 << 20])
+        text = ('stl.startup\n;fj_code\n'
+                + f'segment {gap}\nreserve {64 * rng.choice([2, 8, 64])}\n'          # a segment that only reserves space ...
+                + f'segment {2 * gap}\nfj_code:\nstl.output "OK{k}\\n"\nstl.loop\n'   # ... followed by one that holds code
+                + (f'segment {3 * gap}\nreserve 128\n' if rng.random() < 0.5 else ''))
+        (layout_dir / f'reserve_only_segment{k}.fj').write_text(text)
+        judge.one_case(rng, {'name': 'reserve-only-segment-then-code', 'files': [str(layout_dir / f'reserve_only_segment{k}.fj')], 'width': 64,
+                             'stl': True, 'input': None}, runnable=True)
+        judge.count('layout_programs')
     small = [p for p in programs if any(k in p['name'] for k in ('hello', 'cat', 'simple', 'testbit', 'rep', 'func1', 'print_as'))] or programs
     for _ in range(3 if spec['cases'] <= 5 else spec['cases'] // 3):
         judge.session(rng, small)
